@@ -39,6 +39,11 @@ func (cs ClientState) Validate() error {
 	if cs.TrustingPeriod > math.MaxInt64 {
 		return sdkerrors.Wrapf(sdkerrors.ErrInvalidRequest, "trusting period %d is too large", cs.TrustingPeriod)
 	}
+	// the consensus state of the client's header is stored at the header's height, and the module's
+	// genesis validation rejects a consensus state at height zero
+	if cs.Header.Height.RevisionHeight == 0 {
+		return sdkerrors.Wrap(sdkerrors.ErrInvalidRequest, "an ETH client cannot be anchored at block 0")
+	}
 	return cs.Header.ValidateBasic()
 }
 
